@@ -402,6 +402,29 @@ def exc_signature(e):
     return '%s@%s' % (type(e).__name__, fn)
 
 
+def run_regressions(ctx, mod):
+    """Seconds-long replay tier: every saved case under /verif/regressions/<ID>-*.json (former false alarms of the
+    harness, shrunk counterexamples of repaired defects) is re-executed through the property function, bypassing Hypothesis."""
+    import glob
+    if getattr(ctx, 'only', None):
+        return
+    for path in sorted(glob.glob(os.path.join(VERIF, 'regressions', '%s-*.json' % ctx.pid))):
+        rp = json.load(open(path))
+        try:
+            with watchdog(300):
+                failures = mod.replay(ctx, rp['sub'], rp['case'])
+        except CaseTimeout:
+            ctx.harness_error('regressions', 'saved case %s did not finish in 300s' % os.path.basename(path))
+            continue
+        except HarnessError as e:
+            ctx.harness_error('regressions', '%s on saved case %s' % (e, os.path.basename(path)))
+            continue
+        ctx.record('regressions', {'file': os.path.basename(path), 'case': rp['case']}, True, ['saved-case'], sample=False)
+        new = ctx.split(failures)
+        if new:
+            ctx.violation('regressions', rp['case'], new[0])
+
+
 # ---------------------------------------------------------------------------
 # main
 # ---------------------------------------------------------------------------
@@ -440,6 +463,7 @@ def main(argv=None):
             print('replay passes: %s' % args.replay)
             return 0
         mod.run(ctx)
+        run_regressions(ctx, mod)
     except HarnessError as e:
         ctx.harness_error('main', str(e))
     except Exception as e:
